@@ -9,7 +9,7 @@ IDS=${1:-$(ls seeded)}; PROPS=${2:-"C01 C02 C03 C04 C05 C06 C07 C08 C09 C10 C11 
 [ -x lean/.lake/build/bin/qcodriver ] || (cd lean && lake build > /dev/null 2>&1)
 mkdir -p soaklogs
 for id in $IDS; do
-  git -C $R checkout -q -- . ; git -C $R apply --whitespace=nowarn seeded/$id/patch.diff || { echo "$id patch-failed"; continue; }
+  git -C $R checkout -q -- . ; git -C $R apply --whitespace=nowarn "$(pwd)/seeded/$id/patch.diff" || { echo "$id patch-failed"; continue; }
   caught=""
   for p in $PROPS; do
     ./check $p --tier quick > soaklogs/m-$id-$p.log 2>&1; rc=$?
